@@ -36,6 +36,7 @@ type Program struct {
 	ifaces    map[string]*FuncContract // key: pkgpath.Type.Method
 	contractList []*FuncContract
 	unrefined    []string
+	specCallees  map[*SpecFunc][]*SpecFunc
 }
 
 func loadProgram(repo string, patterns []string) (*Program, error) {
@@ -137,7 +138,99 @@ func loadProgram(repo string, patterns []string) (*Program, error) {
 			}
 		}
 	}
+	P.markRecursiveSpecs()
 	return P, nil
+}
+
+// markRecursiveSpecs: spec functions on a cycle of the spec call graph (direct or mutual
+// recursion) are encoded with unfolding axioms instead of being inlined.
+func (P *Program) markRecursiveSpecs() {
+	var all []*SpecFunc
+	for _, l := range P.specs {
+		all = append(all, l...)
+	}
+	callees := map[*SpecFunc][]*SpecFunc{}
+	for _, sf := range all {
+		if sf.Body == nil {
+			continue
+		}
+		for _, n := range specCallNames(sf.Body) {
+			cands := P.specs[n]
+			var t *SpecFunc
+			for _, c := range cands {
+				if c.Pkg == sf.Pkg {
+					t = c
+				}
+			}
+			if t == nil && len(cands) == 1 {
+				t = cands[0]
+			}
+			if t != nil {
+				callees[sf] = append(callees[sf], t)
+			}
+		}
+	}
+	reach := func(from, to *SpecFunc) bool {
+		seen := map[*SpecFunc]bool{}
+		stack := append([]*SpecFunc{}, callees[from]...)
+		for len(stack) > 0 {
+			x := stack[len(stack)-1]
+			stack = stack[:len(stack)-1]
+			if x == to {
+				return true
+			}
+			if seen[x] {
+				continue
+			}
+			seen[x] = true
+			stack = append(stack, callees[x]...)
+		}
+		return false
+	}
+	for _, sf := range all {
+		if sf.Body != nil && reach(sf, sf) {
+			sf.Rec = true
+		}
+	}
+	P.specCallees = callees
+}
+
+// specSCC: the recursive spec functions on a common cycle with sf (sf first).
+func (P *Program) specSCC(sf *SpecFunc) []*SpecFunc {
+	reach := func(from, to *SpecFunc) bool {
+		seen := map[*SpecFunc]bool{}
+		stack := append([]*SpecFunc{}, P.specCallees[from]...)
+		for len(stack) > 0 {
+			x := stack[len(stack)-1]
+			stack = stack[:len(stack)-1]
+			if x == to {
+				return true
+			}
+			if seen[x] {
+				continue
+			}
+			seen[x] = true
+			stack = append(stack, P.specCallees[x]...)
+		}
+		return false
+	}
+	out := []*SpecFunc{sf}
+	var names []string
+	byName := map[string]*SpecFunc{}
+	for _, l := range P.specs {
+		for _, o := range l {
+			if o != sf && o.Rec && reach(sf, o) && reach(o, sf) {
+				k := o.Pkg + "." + o.Name
+				names = append(names, k)
+				byName[k] = o
+			}
+		}
+	}
+	sort.Strings(names)
+	for _, k := range names {
+		out = append(out, byName[k])
+	}
+	return out
 }
 
 // lookupSpec resolves a spec function name from within package pkg.
